@@ -195,7 +195,10 @@ func GenUniverse(r *rand.Rand, o UOpts) *Universe {
 				ch = append(ch, images[r.Intn(len(images))])
 			}
 		}
-		if r.Intn(8) == 0 {
+		if i == 1 && len(indexes) > 0 {
+			ch[0] = indexes[0] // every universe has at least one index nested in another
+		}
+		if r.Intn(8) == 0 && i != 1 {
 			ch = nil // the empty index
 		}
 		m := MkIndex(fmt.Sprintf("x%d", i), pickAlg(r, o.Algs), mt, ch, "", "", map[string]string{"name": fmt.Sprintf("x%d", i), "u": o.Tag})
